@@ -31,16 +31,16 @@ PROPS = {
              rule="Workload mixes stored no-cache / no-cache=\"fields\" / must-revalidate / immutable / SWR / SIE with request no-cache / max-age / max-stale / min-fresh / only-if-cached, validators present or not, and origin answers 304 / 200 / 5xx / transport error to the validation.",
              require_probes=["C02/unvalidated-reuse", "C02/validation-request-wrong"], technique="deterministic simulation: seeded histories against a scripted origin, permission oracle over the recorded upstream-call log"),
     "C04": P(["vary", "vary", "conc", "swrreuse"], 104,
-             rule="Few URIs, many requests per URI, origin Vary scripts that change over time (none, one or several fields, order changes, '*'), selecting header values built from meaning tables incl. name-like concatenations; 1-2 concurrent clients.",
+             rule="Few URIs, many requests per URI, origin Vary scripts that change over time (none, one or several fields, order changes, '*'), selecting header values built from meaning tables incl. name-like concatenations; 1-2 concurrent clients. Profile swrreuse: stale-while-revalidate entries without validators behind a slow origin, polled by a client that re-sends one request value after changing its selecting fields in place. Selecting values include credentials of several tokens (Authorization) and a value that is not UTF-8.",
              require_probes=["C04/wrong-variant"], technique="deterministic simulation: seeded histories of variant-index evolution, equivalence-by-construction oracle"),
     "C05": P(["fidelity", "fidelity", "conc", "swrrace"], 105,
-             rule="Origin responses in all framings (Content-Length, chunked with trailers, close-delimited, HTTP/1.0, HTTP/2-shaped), arbitrary body bytes 0..64KiB (1MiB thorough), multi-valued / hop-by-hop / Connection-nominated fields, wire chunking with delays, all three backends with short disk reads.",
+             rule="Origin responses in all framings (Content-Length, chunked with trailers, close-delimited, HTTP/1.0, HTTP/2-shaped), arbitrary body bytes 0..64KiB (1MiB thorough), multi-valued / hop-by-hop / Connection-nominated fields, wire chunking with delays, all three backends with short disk reads. Network faults (reset / premature end inside the body) in a tenth of the plans: a message cut short must not reach the caller as a complete one. Profile swrrace: overlapping background refreshes of one entry while the resource changes at the origin (the origin decides 304-or-not when the request arrives).",
              require_probes=["C05/stored-copy-differs", "C05/miss-body-differs"], technique="deterministic simulation: simulated wire + simulated disk, byte-exact provenance oracle"),
     "C06": P(["store", "store", "faults"], 106,
              rule="Statuses 100-599, no-store on either side, non-GET methods, Range, client conditionals, must-understand with unassigned codes, responses without explicit freshness, body streams failing at a wire byte; every value reaching Conn.Set is scanned for origin-response tokens.",
              require_probes=["C06/forbidden-store", "net."], technique="deterministic simulation with network fault injection; monitor on every write at the store seam"),
     "C07": P(["inval"], 107,
-             rule="GETs in several spellings and variants interleaved with unsafe requests of registered, WebDAV and unknown method tokens, statuses 1xx-5xx, relative / absolute / same- / cross-origin Location and Content-Location; 1-2 clients.",
+             rule="GETs in several spellings and variants interleaved with unsafe requests of registered, WebDAV and unknown method tokens, statuses 1xx-5xx, relative / absolute / same- / cross-origin Location and Content-Location; 1-2 clients. A third of the runs inject transient read errors of the store (err / operation timeout on Get) while requests are handled; unsafe exchanges whose Delete was refused are not judged; storing or freshening that overlaps the unsafe request is not judged.",
              require_probes=["C07/served-after-invalidation"], technique="deterministic simulation: seeded histories, happens-before oracle on store writes vs unsafe exchanges"),
     "C08": P(["writeback", "swrvary", "swr"], 108,
              rule="Short lifetimes relative to think times so that entries are validated repeatedly; 304s carrying header updates, full replies with changed validators, 2-4 variants per URI, stale-while-revalidate so refreshes run in the detached goroutine at scheduler-chosen instants.",
@@ -49,7 +49,7 @@ PROPS = {
              rule="Every RFC 3986 spelling transformation and every documented selecting-header spelling, explicit and heuristic freshness, heuristically cacheable statuses, all backends, graceful restart between storing and reuse.",
              require_probes=["C09/expected-hit-missed", "expected-hit-respelled"], technique="deterministic simulation: quiet-window liveness oracle (latest stored response must be served without origin contact)"),
     "C10": P(["placement"], 110, level="fault_enumeration", mode="enum", runs=(0, 0), budget=(35, 900),
-             rule="For each sampled short base history: the fault-free baseline fixes the sites; then every single placement (store operation x {error, not-exist, truncation, bit flip, 15 corpus values, another key's value / set error, error-but-applied / delete error}; upstream call x {error, 5xx, 404, reset at header/body byte, premature EOF, hang}) and sampled pairs are executed; each base is also replayed under text / JSON / info loggers and the event-log digests compared.",
+             rule="For each sampled short base history: the fault-free baseline fixes the sites; then every single placement (store operation x {error, not-exist, truncation, bit flip, 15 corpus values, another key's value / set error, error-but-applied / delete error}; upstream call x {error, 5xx, 404, reset at header/body byte, premature EOF, hang}) and sampled pairs are executed; each base is also replayed under text / JSON / info loggers and the event-log digests compared. Store faults include the error a backend returns when its own operation timeout elapses; URIs include queries that are not well-formed percent-encoding; a real-clock watchdog reports a library goroutine that computes forever without reaching a seam (hang:cpu-spin), confirmed by two replays.",
              require_probes=["store.get.err", "store.get.corpus", "net.error-before-header", "C10/log-dependence"], technique="deterministic simulation with exhaustive single-fault placement around sampled histories (store and origin seams)"),
     "C11": P(["fresh", "valid", "swr", "sie", "oic"], 111,
              rule="Rides on the freshness / validation / SWR / SIE / only-if-cached workloads, plus upstream Age, skewed Date and response delay.",
@@ -70,7 +70,7 @@ PROPS = {
              rule="(1) Sweep for entries <= 100 (484 thorough) bytes: every byte position x {xor 0x01, xor 0x80, xor random}, truncation to every length, extension by 1 and 16 bytes, emptying; wrong key on reopen; six ways of requesting encryption without a usable key; each for encryption enabled by option, DSN and environment. (2) concurrent Set/Get/Delete runs on the encrypted backend with a monitor on every simulated disk write (no 8-byte window of any plaintext value).",
              require_probes=["disk.at-rest-flip1", "disk.at-rest-trunc", "config.unusable-key", "C17/plaintext-on-disk", "C17/tamper-accepted", "disk.at-rest-corruption"], technique="deterministic simulation: at-rest corruption as a storage fault, exhaustive byte positions; plaintext monitor on every disk write"),
     "C18": P(["oic", "oic", "valid"], 118,
-             rule="Requests with only-if-cached (alone and with max-stale / no-cache / max-age / min-fresh) against store states empty, fresh, stale, no-cache, must-revalidate, other variant only, corrupted entry (Conn-level mutation), SWR-eligible.",
+             rule="Requests with only-if-cached (alone and with max-stale / no-cache / max-age / min-fresh) against store states empty, fresh, stale, no-cache, must-revalidate, other variant only, corrupted entry (Conn-level mutation), SWR-eligible. Store faults include operation timeouts (context.DeadlineExceeded from Get).",
              require_probes=["C18/network-touched"], technique="deterministic simulation: upstream-call attribution by goroutine lineage (foreground and background)"),
     "C19": P(["growth"], 119, runs=(700, 30000), budget=(40, 900),
              rule="A finite alphabet of <=4 URIs x <=4 header combinations (optionally an unsafe method) repeated for 8N requests (N=40 quick, 100-500 thorough) against origins using Vary (incl. '*' and changing sets), validation, stale-while-revalidate and 1-60 s lifetimes; store footprint recorded at N, 2N, 4N, 8N; one third of the runs end with an unsafe request to every URI.",
